@@ -73,7 +73,7 @@ def run(tier):
     wd = workdir("c18")
     vlib.build_harness()
     r_ = rng(18)
-    n = 80 if tier == "quick" else 2000
+    n = 80 if tier == "quick" else 600
     scs = uc.universe_scenarios(r_, wd, n, [1, 2, 2, 3, 3, 4], "mixed", ["only-v4", "prefer-v4", "prefer-v6", "only-v6"],
                                 False, nq=(2, 5), forwarding_p=0.15, partial_hints_p=0.3, fault_p=0.4, mapped_p=0.15)
     scs += directed(r_, wd)
